@@ -1,5 +1,184 @@
-import GraphrsModel.Obs
+/-
+  C15 — derived graphs (subgraph, reverse, reweight, collapse) are exactly as specified.
+
+  Each of the four functions builds its result with `new_from_nodes_and_edges` from the source's node
+  list and (a selection / transformation of) its stored edges.  Under the coupling invariant the rebuild
+  never fails and yields the abstract graph the property describes; the result is a reachable state, so
+  C01 - C03 hold of it by the theorems already proved; the source is untouched (the model is functional,
+  the Rust functions take `&self`).
+-/
+import GraphrsModel.Props.C01
+import GraphrsModel.Lemmas.Rebuild
 namespace Graphrs
-/-- placeholder while the framework is brought up: replaced by the property theorems -/
-theorem C15_run_nil (sp : Specs) : (Abs.run sp []).2 = [] := rfl
+
+/-- the remaining clauses of the invariant are re-established by every mutation (Props/C02.lean, Props/C03.lean) -/
+def RestPreserved : Prop :=
+  ∀ (t : Store) (o : Op), t.wf = true → (t.step o).1.nodesOk = true → (t.step o).1.edgesOk = true →
+    (t.step o).1.adjOk = true ∧ (t.step o).1.vecOk = true
+
+/-- **rebuild lemma**: re-adding a well-formed store's own nodes and stored edges under its own specs
+    reproduces the same abstract graph (whatever the iteration order of the edge map) -/
+theorem C15_rebuild (hrest : RestPreserved) (s : Store) (h : s.wf = true) :
+    ∃ t, Store.newFrom s.specs s.nodesVec s.allEdges = .ok t ∧ t.wf = true ∧ AbsEq t.abs s.abs := by
+  obtain ⟨hn, he⟩ := Store.wf_inv h
+  have hab := Abs.addEdges_valid s.specs s.nodesVec s.allEdges []
+    (fun e hm => ⟨(Store.allEdges_valid he hm).1, (Store.allEdges_valid he hm).2.1⟩)
+    (fun e hm => (Store.allEdges_valid he hm).2.2.1)
+    (fun e hm => (Store.allEdges_valid he (by simpa using hm)).2.2.2)
+    (by
+      cases hm : s.specs.multi with
+      | true => exact Or.inl rfl
+      | false => right; simpa using Store.allEdges_keys_distinct he hm)
+  rw [← Abs.addNodes_empty s.nodesVec hn.names_nodup] at hab
+  obtain ⟨t, h1, h2, _, h4⟩ := newFrom_sim hrest _ _ _ _ hab
+  exact ⟨t, h1, h2, h4⟩
+
+/-- **get_subgraph(S)**: never fails, for any S including foreign names; the nodes of S that exist, in their original order
+    with their attributes; exactly the stored edges with both ends in S -/
+theorem C15_subgraph (hrest : RestPreserved) (s : Store) (h : s.wf = true) (S : List Nat) :
+    ∃ t, s.getSubgraph S = .ok t ∧ t.wf = true ∧ t.specs = s.specs ∧ AbsEq t.abs (s.abs.subgraph S) := by
+  obtain ⟨hn, he⟩ := Store.wf_inv h
+  have hnd : ((s.nodesVec.filter fun n => S.contains n.name).map (·.name)).Nodup :=
+    List.Nodup.sublist (List.Sublist.map _ List.filter_sublist) hn.names_nodup
+  have hmemn : ∀ x, x ∈ s.names → S.contains x = true →
+      x ∈ (s.nodesVec.filter fun n => S.contains n.name).map (·.name) := by
+    intro x hx hS
+    simp only [Store.names, List.mem_map] at hx
+    obtain ⟨n, hn1, hn2⟩ := hx
+    exact List.mem_map.mpr ⟨n, List.mem_filter.mpr ⟨hn1, by rw [hn2]; exact hS⟩, hn2⟩
+  have hab := Abs.addEdges_valid s.specs (s.nodesVec.filter fun n => S.contains n.name)
+    (s.allEdges.filter fun e => S.contains e.u && S.contains e.v) []
+    (fun e hm => by
+      rw [List.mem_filter, Bool.and_eq_true] at hm
+      have hv := Store.allEdges_valid he hm.1
+      exact ⟨hmemn _ hv.1 hm.2.1, hmemn _ hv.2.1 hm.2.2⟩)
+    (fun e hm => (Store.allEdges_valid he (List.mem_filter.mp hm).1).2.2.1)
+    (fun e hm => by
+      rw [List.nil_append] at hm
+      exact (Store.allEdges_valid he (List.mem_filter.mp hm).1).2.2.2)
+    (by
+      cases hm : s.specs.multi with
+      | true => exact Or.inl rfl
+      | false =>
+        right
+        rw [List.nil_append]
+        exact List.Pairwise.filter _ (Store.allEdges_keys_distinct he hm))
+  rw [← Abs.addNodes_empty _ hnd] at hab
+  obtain ⟨t, h1, h2, h3, h4⟩ := newFrom_sim hrest _ _ _ _ hab
+  refine ⟨t, ?_, h2, h3, h4⟩
+  simp only [Store.getSubgraph, Store.getAllNodes, h1, Outcome.unwrap]
+
+/-- **reverse()** on a directed graph flips every edge, keeping nodes, weights and parallel edges -/
+theorem C15_reverse (hrest : RestPreserved) (s : Store) (h : s.wf = true) (hd : s.specs.directed = true) :
+    ∃ t, s.reverse = .ok t ∧ t.wf = true ∧ t.specs = s.specs ∧ AbsEq t.abs s.abs.reverse := by
+  obtain ⟨hn, he⟩ := Store.wf_inv h
+  have hab := Abs.addEdges_valid s.specs s.nodesVec (s.allEdges.map Edge.reversed) []
+    (fun e hm => by
+      obtain ⟨e0, h0, rfl⟩ := List.mem_map.mp hm
+      exact ⟨(Store.allEdges_valid he h0).2.1, (Store.allEdges_valid he h0).1⟩)
+    (fun e hm => by
+      obtain ⟨e0, h0, rfl⟩ := List.mem_map.mp hm
+      rcases (Store.allEdges_valid he h0).2.2.1 with h' | h'
+      · exact Or.inl h'
+      · exact Or.inr (fun hc => h' hc.symm))
+    (fun e _ => Or.inl hd)
+    (by
+      cases hm : s.specs.multi with
+      | true => exact Or.inl rfl
+      | false =>
+        right
+        rw [List.nil_append, List.pairwise_map]
+        refine List.Pairwise.imp ?_ (Store.allEdges_keys_distinct he hm)
+        intro a b hab hc
+        apply hab
+        simp only [Edge.reversed, Prod.mk.injEq] at hc ⊢
+        exact ⟨hc.2, hc.1⟩)
+  rw [← Abs.addNodes_empty _ hn.names_nodup] at hab
+  obtain ⟨t, h1, h2, h3, h4⟩ := newFrom_sim hrest _ _ _ _ hab
+  refine ⟨t, ?_, h2, h3, h4⟩
+  simp only [Store.reverse, Store.getAllNodes, hd, h1, Bool.not_true, Bool.false_eq_true, if_false]
+
+/-- applying it twice restores the graph -/
+theorem C15_reverse_involutive (a : Abs) : a.reverse.reverse = a := by
+  cases a with
+  | mk ns es =>
+    simp only [Abs.reverse, List.map_map]
+    congr 1
+    rw [List.map_congr_left (g := id) (fun e _ => by cases e; rfl)]
+    exact List.map_id _
+
+/-- **set_all_edge_weights(w)** keeps nodes and edges and sets every weight to w -/
+theorem C15_setWeights (hrest : RestPreserved) (s : Store) (h : s.wf = true) (w : W) :
+    ∃ t, s.setAllEdgeWeights w = .ok t ∧ t.wf = true ∧ t.specs = s.specs ∧ AbsEq t.abs (s.abs.setWeights w) := by
+  obtain ⟨hn, he⟩ := Store.wf_inv h
+  have hab := Abs.addEdges_valid s.specs s.nodesVec (s.allEdges.map fun e => { e with w := w }) []
+    (fun e hm => by
+      obtain ⟨e0, h0, rfl⟩ := List.mem_map.mp hm
+      exact ⟨(Store.allEdges_valid he h0).1, (Store.allEdges_valid he h0).2.1⟩)
+    (fun e hm => by
+      obtain ⟨e0, h0, rfl⟩ := List.mem_map.mp hm
+      exact (Store.allEdges_valid he h0).2.2.1)
+    (fun e hm => by
+      obtain ⟨e0, h0, rfl⟩ := List.mem_map.mp (by simpa using hm)
+      exact (Store.allEdges_valid he h0).2.2.2)
+    (by
+      cases hm : s.specs.multi with
+      | true => exact Or.inl rfl
+      | false =>
+        right
+        rw [List.nil_append, List.pairwise_map]
+        exact Store.allEdges_keys_distinct he hm)
+  rw [← Abs.addNodes_empty _ hn.names_nodup] at hab
+  obtain ⟨t, h1, h2, h3, h4⟩ := newFrom_sim hrest _ _ _ _ hab
+  refine ⟨t, ?_, h2, h3, h4⟩
+  simp only [Store.setAllEdgeWeights, Store.getAllNodes, h1, Outcome.unwrap]
+
+/-- **to_single_edges()** on a multi-edge graph keeps the nodes and replaces each group of parallel edges by one edge whose weight
+    is the group's sum (in stored order) -/
+theorem C15_toSingle (hrest : RestPreserved) (s : Store) (h : s.wf = true) (hm : s.specs.multi = true) :
+    ∃ t, s.toSingleEdges = .ok t ∧ t.wf = true ∧ t.specs = { s.specs with multi := false } ∧ AbsEq t.abs s.abs.toSingle := by
+  obtain ⟨hn, he⟩ := Store.wf_inv h
+  have hent : ∀ e ∈ s.edges.map Store.collapseEdges, ∃ kv ∈ s.edges, e = Store.collapseEdges kv ∧
+      Store.EdgeEntry s kv.1 kv.2 := by
+    intro e hm
+    obtain ⟨kv, hkv, rfl⟩ := List.mem_map.mp hm
+    exact ⟨kv, hkv, rfl, he.edges_ok kv.1 kv.2 (AL.mem_lookup he.edges_nodup hkv)⟩
+  have hab := Abs.addEdges_valid { s.specs with multi := false } s.nodesVec (s.edges.map Store.collapseEdges) []
+    (fun e hm => by
+      obtain ⟨kv, _, rfl, _, _, _, a4, a5, _⟩ := hent e hm
+      exact ⟨a4, a5⟩)
+    (fun e hm => by
+      obtain ⟨kv, _, rfl, _, _, _, _, _, _, a7, _⟩ := hent e hm
+      exact a7)
+    (fun e hm => by
+      rw [List.nil_append] at hm
+      obtain ⟨kv, _, rfl, _, _, a3, _⟩ := hent e hm
+      exact a3)
+    (by
+      right
+      rw [List.nil_append, List.pairwise_map]
+      have := he.edges_nodup
+      rw [List.Nodup, List.pairwise_map] at this
+      exact this)
+  rw [← Abs.addNodes_empty _ hn.names_nodup] at hab
+  obtain ⟨t, h1, h2, h3, h4⟩ := newFrom_sim hrest _ _ _ _ hab
+  refine ⟨t, ?_, h2, h3, ?_⟩
+  · simp only [Store.toSingleEdges, hm, h1, Bool.not_true, Bool.false_eq_true, if_false]
+  · rw [Store.abs_toSingle he]; exact h4
+
+/-- the wrong kind of graph is refused with WrongMethod -/
+theorem C15_wrong_kind (s : Store) :
+    (s.specs.directed = false → s.reverse = .err .WrongMethod) ∧
+    (s.specs.multi = false → s.toSingleEdges = .err .WrongMethod) := by
+  constructor
+  · intro hd; simp [Store.reverse, hd]
+  · intro hm; simp [Store.toSingleEdges, hm]
+
+/-- non-vacuity: collapsing parallel edges of an undirected multigraph inserted out of sort order -/
+example :
+    let sp : Specs := ⟨false, true, true, .error, .create, .error⟩
+    let s := (Store.run sp [Op.addEdge ⟨7, 3, some 1, none⟩, Op.addEdge ⟨3, 7, some 2, none⟩, Op.addEdge ⟨7, 7, some 4, none⟩]).1
+    (s.toSingleEdges.toOption.map fun t => t.allEdges) = some [⟨3, 7, some 3, none⟩, ⟨7, 7, some 4, none⟩] := by
+  decide
+
 end Graphrs
